@@ -435,7 +435,9 @@ class ABCTune(object):
       raise ABCParseError(
           'Cannot apply broken rhythm to two notes of different lengths')
 
-    time_adj = note1_len / (2 ** len(broken_rhythm))
+    # '>' dots the first note and halves the second, '>>' double-dots and
+    # quarters, etc.: n symbols move (1 - 1/2**n) of the length.
+    time_adj = note1_len - note1_len / (2 ** len(broken_rhythm))
     if broken_rhythm[0] == '<':
       note1.end_time -= time_adj
       note2.start_time -= time_adj
